@@ -901,6 +901,11 @@ bool dispatch_api(State& st, const std::string& op, const json& a, json& ret)
         bool with_tables = a.value("tables", false);
         json obs0 = observe_all(st, oa);
         if (with_tables) obs0["tables"] = observe_tables(st, oa);
+        // "stored": the content of every stored table (per-table digests of plain SELECT *) is compared as well - a row left
+        // behind by a failed call that no accessor shows is still part of the database another reader opens
+        bool with_stored = a.value("stored", false);
+        json stored_args = {{"digest", true}, {"checks", false}};
+        json dig0 = with_stored ? rawdump(stored_args) : json();
         // the sets of names / paths / ids to probe must not differ between the observations compared
         auto names0 = st.names;
         auto paths0 = st.paths;
@@ -967,6 +972,20 @@ bool dispatch_api(State& st, const std::string& op, const json& a, json& ret)
             if (with_tables) obs["tables"] = observe_tables(st, oa);
             bool same = obs == obs0;
             r["same"] = same;
+            if (with_stored)
+            {
+                json dig = rawdump(stored_args);
+                if (dig != dig0)
+                {
+                    json changed = json::array();
+                    for (auto& [dbn, d] : dig.items())
+                        for (auto& [tn, tv] : d["tables"].items())
+                            if (!dig0.contains(dbn) || !dig0[dbn]["tables"].contains(tn) || dig0[dbn]["tables"][tn] != tv)
+                                changed.push_back(dbn + "." + tn);
+                    r["stored_changed"] = changed;
+                    dig0 = dig;
+                }
+            }
             bool bad = !threw || !same || txn != 0;
             if (bad)
             {
